@@ -236,6 +236,25 @@ pub fn run(tier: &str, seed: u64, order: usize, out: &mut Out) {
         let dev_b = dev(true);
         let dev_same = dev_a.iter().zip(dev_b.iter()).all(|(a, b)| a.1 == b.1);
         let dev_digest: u64 = dev_a.iter().fold(0u64, |h, (k, s)| h.rotate_left(7) ^ fnv(k) ^ fnv(s));
+        // the imported group replaces files the importing group already holds under the same path (as adding them would)
+        {
+            let mut sub = TmplGroup::new();
+            for (p, s) in g.files.iter() {
+                { crate::util::note_input(&*s); sub.add_tmpl(p, s) };
+            }
+            for (p, s) in g.scripts.iter() {
+                sub.add_script(p, s);
+            }
+            let mut main = TmplGroup::new();
+            if let Some((p, _)) = g.files.first() {
+                main.add_tmpl(p, "<view>stale content of the importing group</view>");
+            }
+            if let Some((p, _)) = g.scripts.first() {
+                main.add_script(p, "exports.stale = 1");
+            }
+            main.import_group(&sub);
+            imported_all.push(all_artefacts(&main, &paths));
+        }
         let r = reference.unwrap();
         let import_equal = imported_all.iter().all(|imported| imported.iter().zip(r.iter()).all(|(a, b)| a.1 == b.1));
         let digest: Vec<String> = r.iter().map(|(k, s)| format!("{}={:016x}", k, fnv(s))).collect();
